@@ -98,6 +98,8 @@ func main() {
 			made = os.Args[2]
 		}
 		os.Exit(genGolden2(made))
+	case "selftest-asan":
+		os.Exit(selftestAsan())
 	case "selftest-race":
 		os.Exit(selftestRace())
 	default:
